@@ -1,7 +1,942 @@
 package main
 
-// Replay drivers are added in replaygo.go; this first version has none.
+// Replay driver R1: turn a solver model into concrete arguments, call the
+// real function in its own package through `go test -overlay` (nothing is
+// written into /repo), and decide from what the real code did whether the
+// obligation is violated on the real code.
 
-func tryReplay(run *checkRun, o *Obligation, base string) string { return "" }
+import (
+	"bytes"
+	"context"
+	"encoding/json"
+	"fmt"
+	"go/types"
+	"os"
+	"os/exec"
+	"path/filepath"
+	"strings"
+	"time"
 
-func runReplayTest(spec string) int { return 0 }
+	"golang.org/x/tools/go/ssa"
+)
+
+type cval struct {
+	kind   string // int | bool | bytes | string | nil | struct | ptr | conn | unsupported
+	w      int
+	signed bool
+	u      uint64
+	b      bool
+	bs     []byte
+	fields map[string]*cval
+	isNil  bool
+	typ    types.Type
+}
+
+// getValues runs one solver on query+get-value and returns term->value.
+func getValues(query string, terms []string, timeoutS int) (map[string]string, bool) {
+	if len(terms) == 0 {
+		return map[string]string{}, true
+	}
+	f, err := os.CreateTemp(workDir(), "gv-*.smt2")
+	if err != nil {
+		return nil, false
+	}
+	name := f.Name()
+	var b strings.Builder
+	b.WriteString(query)
+	for i := 0; i < len(terms); i += 200 {
+		j := min(i+200, len(terms))
+		b.WriteString("(get-value (" + strings.Join(terms[i:j], " ") + "))\n")
+	}
+	f.WriteString(b.String())
+	f.Close()
+	defer os.Remove(name)
+	for _, sp := range []int{0, 1} {
+		st, out, _ := runOne(context.Background(), solvers[sp], name, timeoutS)
+		if st != "sat" {
+			continue
+		}
+		toks := tokenize(out)
+		res := map[string]string{}
+		// parse ((term value) (term value) ...) groups in order
+		idx := 0
+		i := 1 // skip "sat"
+		for i < len(toks) && idx < len(terms) {
+			if toks[i] == "(" && i+1 < len(toks) && toks[i+1] == "(" {
+				i++
+				for i < len(toks) && toks[i] == "(" && idx < len(terms) {
+					e := skipSexp(toks, i) // whole (term value)
+					// term is first sexp inside
+					ts := i + 1
+					te := skipSexp(toks, ts)
+					res[terms[idx]] = strings.Join(toks[te:e-1], " ")
+					idx++
+					i = e
+				}
+				if i < len(toks) && toks[i] == ")" {
+					i++
+				}
+			} else {
+				i++
+			}
+		}
+		if idx == len(terms) {
+			return res, true
+		}
+	}
+	return nil, false
+}
+
+type replayPlan struct {
+	fn     *ssa.Function
+	o      *Obligation
+	x      *Exec
+	fr     *Frame
+	params []Val
+	names  []string
+	cvals  []*cval
+	ghost0 map[string]*cval
+	notes  []string
+}
+
+func supportedParam(t types.Type, depth int) bool {
+	switch u := t.Underlying().(type) {
+	case *types.Basic:
+		return u.Info()&(types.IsInteger|types.IsBoolean|types.IsString) != 0
+	case *types.Slice:
+		return scalarSort(u.Elem()) == SBV8 && isInteger(u.Elem())
+	case *types.Struct:
+		return depth < 3
+	case *types.Pointer:
+		_, ok := u.Elem().Underlying().(*types.Struct)
+		return ok && depth < 3
+	case *types.Interface:
+		return true // nil, or a recording fake for net.Conn
+	case *types.Signature:
+		return true // nil
+	case *types.Map, *types.Chan:
+		return true
+	}
+	return false
+}
+
+// collectTerms lists the SMT terms needed to build concrete value for v.
+func (p *replayPlan) collectTerms(v Val, depth int, st *State, out *[]string) {
+	switch u := v.T.Underlying().(type) {
+	case *types.Basic:
+		if isString(v.T) {
+			*out = append(*out, app("slen", v.L[0]))
+			return
+		}
+		*out = append(*out, v.L[0])
+	case *types.Slice:
+		*out = append(*out, v.L[0], v.L[1], v.L[2])
+	case *types.Struct:
+		for i := 0; i < u.NumFields(); i++ {
+			p.collectTerms(v.field(i), depth+1, st, out)
+		}
+	case *types.Pointer:
+		*out = append(*out, v.L[0])
+		if stt, ok := u.Elem().Underlying().(*types.Struct); ok && depth < 2 {
+			for i := 0; i < stt.NumFields(); i++ {
+				ft := stt.Field(i).Type()
+				if !supportedParam(ft, depth+1) || len(leavesOf(ft)) == 0 {
+					continue
+				}
+				fp := Val{T: types.NewPointer(ft), L: v.L, PtrPrefix: v.ptrPrefixOr() + "." + stt.Field(i).Name(), PtrIndex: v.PtrIndex}
+				if !p.regionsKnown(fp, ft) {
+					continue
+				}
+				fv := p.x.loadValNoAssume(st, fp, ft)
+				p.collectTerms(fv, depth+1, st, out)
+			}
+		}
+	case *types.Interface, *types.Signature, *types.Map, *types.Chan:
+		*out = append(*out, v.L[0])
+	}
+}
+
+func (p *replayPlan) regionsKnown(fp Val, ft types.Type) bool {
+	for _, l := range leavesOf(ft) {
+		if _, ok := p.x.heapSort[fp.ptrPrefixOr()+l.Path]; !ok {
+			return false
+		}
+	}
+	return true
+}
+
+// loadValNoAssume reads from the entry heap without adding assertions.
+func (x *Exec) loadValNoAssume(st *State, p Val, t types.Type) Val {
+	prefix := p.ptrPrefixOr()
+	ls := leavesOf(t)
+	v := Val{T: t, L: make([]string, len(ls))}
+	for i, l := range ls {
+		a := "H0." + sanitize(prefix+l.Path)
+		if cur, ok := st.heap[prefix+l.Path]; ok && cur != "" {
+			a = cur
+		}
+		if p.PtrIndex != "" {
+			v.L[i] = sel(sel(a, p.L[0]), p.PtrIndex)
+		} else {
+			v.L[i] = sel(a, p.L[0])
+		}
+	}
+	return v
+}
+
+func modelBV(vals map[string]string, term string) (uint64, bool) {
+	s, ok := vals[term]
+	if !ok {
+		return 0, false
+	}
+	return bvValue(s)
+}
+
+func (p *replayPlan) build(v Val, depth int, st *State, vals map[string]string, query string) *cval {
+	c := &cval{typ: v.T}
+	switch u := v.T.Underlying().(type) {
+	case *types.Basic:
+		switch {
+		case isString(v.T):
+			n, _ := modelBV(vals, app("slen", v.L[0]))
+			if n > 8192 {
+				c.kind = "unsupported"
+				return c
+			}
+			c.kind = "string"
+			var terms []string
+			for i := uint64(0); i < n; i++ {
+				terms = append(terms, app("sbyte", v.L[0], bvLit(i, 64)))
+			}
+			bv, ok := getValues(query, terms, 20)
+			if !ok {
+				c.kind = "unsupported"
+				return c
+			}
+			for _, t := range terms {
+				x, _ := bvValue(bv[t])
+				c.bs = append(c.bs, byte(x))
+			}
+		case isBool(v.T):
+			c.kind = "bool"
+			c.b = strings.TrimSpace(vals[v.L[0]]) == "true"
+		default:
+			c.kind = "int"
+			c.w = basicWidth(u)
+			c.signed = !isUnsigned(v.T)
+			c.u, _ = modelBV(vals, v.L[0])
+		}
+	case *types.Slice:
+		ref, _ := modelBV(vals, v.L[0])
+		n, _ := modelBV(vals, v.L[2])
+		if ref == 0 && n == 0 {
+			c.kind = "bytes"
+			c.isNil = true
+			return c
+		}
+		if n > 70000 {
+			c.kind = "unsupported"
+			return c
+		}
+		c.kind = "bytes"
+		var terms []string
+		p.x.regHeap("arr.bv8", SBV8, SBV64)
+		arr := "H0.arr.bv8"
+		for i := uint64(0); i < n; i++ {
+			terms = append(terms, sel(sel(arr, v.L[0]), app("bvadd", v.L[1], bvLit(i, 64))))
+		}
+		c.bs = []byte{}
+		if n > 0 {
+			bv, ok := getValues(query, terms, 30)
+			if !ok {
+				c.kind = "unsupported"
+				return c
+			}
+			for _, t := range terms {
+				x, _ := bvValue(bv[t])
+				c.bs = append(c.bs, byte(x))
+			}
+		}
+	case *types.Struct:
+		c.kind = "struct"
+		c.fields = map[string]*cval{}
+		for i := 0; i < u.NumFields(); i++ {
+			if supportedParam(u.Field(i).Type(), depth+1) {
+				c.fields[u.Field(i).Name()] = p.build(v.field(i), depth+1, st, vals, query)
+			}
+		}
+	case *types.Pointer:
+		ref, _ := modelBV(vals, v.L[0])
+		c.kind = "ptr"
+		if ref == 0 {
+			c.isNil = true
+			return c
+		}
+		c.fields = map[string]*cval{}
+		if stt, ok := u.Elem().Underlying().(*types.Struct); ok && depth < 2 {
+			for i := 0; i < stt.NumFields(); i++ {
+				ft := stt.Field(i).Type()
+				if !supportedParam(ft, depth+1) {
+					continue
+				}
+				fp := Val{T: types.NewPointer(ft), L: v.L, PtrPrefix: v.ptrPrefixOr() + "." + stt.Field(i).Name(), PtrIndex: v.PtrIndex}
+				if !p.regionsKnown(fp, ft) {
+					continue
+				}
+				fv := p.x.loadValNoAssume(st, fp, ft)
+				c.fields[stt.Field(i).Name()] = p.build(fv, depth+1, st, vals, query)
+			}
+		}
+	case *types.Interface:
+		c.kind = "iface"
+		c.isNil = strings.TrimSpace(vals[v.L[0]]) == "inil"
+		if qualifiedTypeName(v.T) == "net.Conn" {
+			c.kind = "conn"
+		}
+	default:
+		c.kind = "nilable"
+		c.isNil = true
+	}
+	return c
+}
+
+// goLit renders a concrete value as Go source.
+func goLit(c *cval, qual func(types.Type) string) string {
+	switch c.kind {
+	case "int":
+		if c.signed {
+			var s int64
+			switch c.w {
+			case 8:
+				s = int64(int8(c.u))
+			case 16:
+				s = int64(int16(c.u))
+			case 32:
+				s = int64(int32(c.u))
+			default:
+				s = int64(c.u)
+			}
+			return fmt.Sprintf("%s(%d)", qual(c.typ), s)
+		}
+		return fmt.Sprintf("%s(%d)", qual(c.typ), c.u)
+	case "bool":
+		return fmt.Sprintf("%v", c.b)
+	case "string":
+		return fmt.Sprintf("%s(%q)", qual(c.typ), string(c.bs))
+	case "bytes":
+		if c.isNil {
+			return "nil"
+		}
+		var parts []string
+		for _, b := range c.bs {
+			parts = append(parts, fmt.Sprintf("%d", b))
+		}
+		return "[]byte{" + strings.Join(parts, ",") + "}"
+	case "struct":
+		var parts []string
+		for _, k := range sortedKeys(c.fields) {
+			if f := c.fields[k]; f.kind != "unsupported" {
+				parts = append(parts, k+": "+goLit(f, qual))
+			}
+		}
+		return qual(c.typ) + "{" + strings.Join(parts, ", ") + "}"
+	case "ptr":
+		if c.isNil {
+			return "nil"
+		}
+		et := c.typ.Underlying().(*types.Pointer).Elem()
+		var parts []string
+		for _, k := range sortedKeys(c.fields) {
+			if f := c.fields[k]; f.kind != "unsupported" {
+				parts = append(parts, k+": "+goLit(f, qual))
+			}
+		}
+		return "&" + qual(et) + "{" + strings.Join(parts, ", ") + "}"
+	case "conn":
+		if c.isNil {
+			return "nil"
+		}
+		return "&gocvRecConn{}"
+	}
+	return "nil"
+}
+
+func tryReplay(run *checkRun, o *Obligation, base string) string {
+	if o.exec == nil || o.frame == nil {
+		return "replay: no driver for this obligation\n"
+	}
+	x, fr := o.exec, o.frame
+	fn := fr.fn
+	if fn.Pkg == nil || fn.Parent() != nil {
+		return "replay: closures are not replayed by driver R1\n"
+	}
+	p := &replayPlan{fn: fn, o: o, x: x, fr: fr}
+	for _, prm := range fn.Params {
+		if !supportedParam(prm.Type(), 0) {
+			return fmt.Sprintf("replay: parameter %s of type %v is outside driver R1\n", prm.Name(), prm.Type())
+		}
+		p.params = append(p.params, fr.vals[prm])
+		p.names = append(p.names, prm.Name())
+	}
+	var out strings.Builder
+	query := o.smt.Query(o.prefix, o.pc, not(o.goal))
+	// find a small model: bound slice and string lengths
+	var lenTerms []string
+	for _, v := range p.params {
+		if isSlice(v.T) {
+			lenTerms = append(lenTerms, v.L[2])
+		} else if isString(v.T) {
+			lenTerms = append(lenTerms, app("slen", v.L[0]))
+		}
+	}
+	var scal []string
+	for _, v := range p.params {
+		p.collectTerms(v, 0, fr.entry, &scal)
+	}
+	// entry ghost values
+	var ghostNames []string
+	for _, g := range sortedKeys(fr.entry.ghost) {
+		gv := fr.entry.ghost[g]
+		if len(gv.L) == 1 {
+			ghostNames = append(ghostNames, g)
+			scal = append(scal, gv.L[0])
+		}
+	}
+	var vals map[string]string
+	chosen := ""
+	for _, bound := range []uint64{16, 64, 4200, 70000} {
+		q := strings.TrimSuffix(query, "(check-sat)\n")
+		for _, lt := range lenTerms {
+			q += "(assert (bvule " + lt + " " + bvLit(bound, 64) + "))\n"
+		}
+		q += "(check-sat)\n"
+		if vs, ok := getValues(q, scal, 20); ok {
+			vals, chosen = vs, q
+			break
+		}
+	}
+	if vals == nil {
+		return "replay: could not obtain concrete model values (quantified query or solver limit)\n"
+	}
+	// pin scalars so that the byte queries describe the same model
+	pinned := strings.TrimSuffix(chosen, "(check-sat)\n")
+	for _, t := range scal {
+		if v, ok := vals[t]; ok && !strings.Contains(v, "Iface") && !strings.Contains(v, "Str!") && !strings.Contains(v, "Fn!") && !strings.Contains(v, "Opq") && !strings.Contains(v, "as ") && !strings.Contains(v, "@") {
+			pinned += "(assert (= " + t + " " + v + "))\n"
+		}
+	}
+	pinned += "(check-sat)\n"
+	for _, v := range p.params {
+		c := p.build(v, 0, fr.entry, vals, pinned)
+		p.cvals = append(p.cvals, c)
+	}
+	pkgPath := fn.Pkg.Pkg.Path()
+	qual := func(t types.Type) string {
+		return types.TypeString(t, func(pk *types.Package) string {
+			if pk.Path() == pkgPath {
+				return ""
+			}
+			return pk.Name()
+		})
+	}
+	src, ok := p.harness(qual)
+	if !ok {
+		return "replay: a parameter value could not be built (unsupported shape)\n"
+	}
+	testFile := base + ".replay_test.go"
+	os.WriteFile(testFile, []byte(src), 0o644)
+	rel := strings.TrimPrefix(pkgPath, repoModule)
+	pkgDir := filepath.Join(repoDir, rel)
+	spec := pkgDir + "|" + testFile
+	fmt.Fprintf(&out, "replay-test: %s\n", spec)
+	for i, n := range p.names {
+		fmt.Fprintf(&out, "input %s = %s\n", n, truncate(goLit(p.cvals[i], qual), 400))
+	}
+	res, raw := runHarness(pkgDir, testFile)
+	if res == nil {
+		fmt.Fprintf(&out, "replay: harness did not produce a result\n%s\n", truncate(raw, 2000))
+		return out.String()
+	}
+	fmt.Fprintf(&out, "real-code-outcome: %s\n", truncate(mustJSON(res), 1500))
+	switch o.Kind {
+	case "bounds", "nil", "typeassert", "div", "panic", "makeslice", "nilmap", "nilfunc":
+		if pm, ok := res["panic"]; ok {
+			fmt.Fprintf(&out, "confirmed-on-real-code: the real function panics on this input: %v\n", pm)
+		} else {
+			fmt.Fprintf(&out, "not-confirmed: the real function did not panic on the model input\n")
+		}
+	case "ensures":
+		if _, ok := res["panic"]; ok {
+			fmt.Fprintf(&out, "confirmed-on-real-code: the real function panics on this input (no result can satisfy the postcondition): %v\n", res["panic"])
+			break
+		}
+		verdict := p.validate(res, vals, ghostNames)
+		out.WriteString(verdict)
+	default:
+		fmt.Fprintf(&out, "replay: obligation kind %s has no oracle in driver R1\n", o.Kind)
+	}
+	return out.String()
+}
+
+func mustJSON(v any) string {
+	b, _ := json.Marshal(v)
+	return string(b)
+}
+
+func runHarness(pkgDir, testFile string) (map[string]any, string) {
+	ov := map[string]any{"Replace": map[string]string{filepath.Join(pkgDir, "zz_gocv_replay_test.go"): testFile}}
+	ovPath := testFile + ".overlay.json"
+	data, _ := json.Marshal(ov)
+	os.WriteFile(ovPath, data, 0o644)
+	ctx, cancel := context.WithTimeout(context.Background(), 120*time.Second)
+	defer cancel()
+	cmd := exec.CommandContext(ctx, "go", "test", "-overlay", ovPath, "-vet=off", "-count=1", "-timeout", "60s", "-v", "-run", "^TestGocvReplay$", ".")
+	cmd.Dir = pkgDir
+	cmd.Env = append(os.Environ(), "GOFLAGS=-mod=mod", "GOPROXY=off", "GOSUMDB=off", "GOTOOLCHAIN=local")
+	var ob bytes.Buffer
+	cmd.Stdout = &ob
+	cmd.Stderr = &ob
+	cmd.Run()
+	raw := ob.String()
+	for _, line := range strings.Split(raw, "\n") {
+		if i := strings.Index(line, "GOCV-REPLAY:"); i >= 0 {
+			var m map[string]any
+			if json.Unmarshal([]byte(line[i+len("GOCV-REPLAY:"):]), &m) == nil {
+				return m, raw
+			}
+		}
+	}
+	return nil, raw
+}
+
+func runReplayTest(spec string) int {
+	parts := strings.SplitN(spec, "|", 2)
+	if len(parts) != 2 {
+		return 2
+	}
+	res, raw := runHarness(parts[0], parts[1])
+	if res == nil {
+		fmt.Println(raw)
+		return 2
+	}
+	fmt.Println("re-run on the current tree:", mustJSON(res))
+	return 0
+}
+
+// harness renders the Go test that calls the function with the model inputs
+// and prints inputs-after and results as JSON.
+func (p *replayPlan) harness(qual func(types.Type) string) (string, bool) {
+	fn := p.fn
+	var b strings.Builder
+	fmt.Fprintf(&b, "package %s\n\nimport (\n\t\"encoding/json\"\n\t\"fmt\"\n\t\"io\"\n\t\"net\"\n\t\"testing\"\n\t\"time\"\n)\n\n", fn.Pkg.Pkg.Name())
+	b.WriteString(`type gocvRecConn struct {
+	net.Conn
+	writes [][]byte
+}
+
+func (c *gocvRecConn) Write(b []byte) (int, error) {
+	c.writes = append(c.writes, append([]byte{}, b...))
+	return len(b), nil
+}
+func (c *gocvRecConn) Read(b []byte) (int, error)         { return 0, io.EOF }
+func (c *gocvRecConn) Close() error                       { return nil }
+func (c *gocvRecConn) SetDeadline(t time.Time) error      { return nil }
+
+var _ = io.EOF
+var _ = time.Now
+
+func gocvEnc(v any) any {
+	switch t := v.(type) {
+	case nil:
+		return map[string]any{"nil": true}
+	case []byte:
+		if t == nil {
+			return map[string]any{"bytes": []int{}, "nilslice": true}
+		}
+		xs := make([]int, len(t))
+		for i, b := range t {
+			xs[i] = int(b)
+		}
+		return map[string]any{"bytes": xs}
+	case string:
+		xs := make([]int, len(t))
+		for i := 0; i < len(t); i++ {
+			xs[i] = int(t[i])
+		}
+		return map[string]any{"str": xs}
+	case bool:
+		return map[string]any{"bool": t}
+	case error:
+		return map[string]any{"nil": false, "err": t.Error()}
+	case int, int8, int16, int32, int64, uint, uint8, uint16, uint32, uint64, uintptr:
+		return map[string]any{"int": fmt.Sprint(t)}
+	}
+	return map[string]any{"other": fmt.Sprintf("%T", v), "nil": false}
+}
+
+func TestGocvReplay(t *testing.T) {
+	out := map[string]any{}
+	defer func() {
+		if r := recover(); r != nil {
+			out["panic"] = fmt.Sprint(r)
+		}
+		bs, _ := json.Marshal(out)
+		fmt.Println("GOCV-REPLAY:" + string(bs))
+	}()
+`)
+	var argNames []string
+	for i, c := range p.cvals {
+		if c.kind == "unsupported" {
+			return "", false
+		}
+		an := fmt.Sprintf("a%d", i)
+		argNames = append(argNames, an)
+		lit := goLit(c, qual)
+		if lit == "nil" {
+			fmt.Fprintf(&b, "\tvar %s %s\n", an, qual(p.params[i].T))
+		} else if c.kind == "conn" {
+			fmt.Fprintf(&b, "\t%sfake := &gocvRecConn{}\n\tvar %s %s = %sfake\n", an, an, qual(p.params[i].T), an)
+		} else {
+			fmt.Fprintf(&b, "\tvar %s %s = %s\n", an, qual(p.params[i].T), lit)
+		}
+	}
+	sig := fn.Signature
+	nres := sig.Results().Len()
+	var rs []string
+	for i := 0; i < nres; i++ {
+		rs = append(rs, fmt.Sprintf("r%d", i))
+	}
+	callee := fn.Name()
+	callArgs := argNames
+	if sig.Recv() != nil {
+		callee = "(" + argNames[0] + ")." + fn.Name()
+		callArgs = argNames[1:]
+	}
+	if nres > 0 {
+		fmt.Fprintf(&b, "\t%s := %s(%s)\n", strings.Join(rs, ", "), callee, strings.Join(callArgs, ", "))
+		var encs []string
+		for _, r := range rs {
+			encs = append(encs, "gocvEnc("+r+")")
+		}
+		fmt.Fprintf(&b, "\tout[\"results\"] = []any{%s}\n", strings.Join(encs, ", "))
+	} else {
+		fmt.Fprintf(&b, "\t%s(%s)\n", callee, strings.Join(callArgs, ", "))
+	}
+	// state after: byte slices, recorded writes, scalar fields of pointer params (depth 2)
+	b.WriteString("\tafter := map[string]any{}\n")
+	for i, c := range p.cvals {
+		an := argNames[i]
+		switch c.kind {
+		case "bytes":
+			fmt.Fprintf(&b, "\tafter[%q] = gocvEnc(%s)\n", p.names[i], an)
+		case "conn":
+			if !c.isNil {
+				fmt.Fprintf(&b, "\t{\n\t\tws := []any{}\n\t\tfor _, w := range %sfake.writes {\n\t\t\tws = append(ws, gocvEnc(w))\n\t\t}\n\t\tafter[%q] = map[string]any{\"writes\": ws}\n\t}\n", an, p.names[i])
+			}
+		case "ptr":
+			if !c.isNil {
+				p.afterFields(&b, an, p.names[i], c, 0)
+			}
+		}
+	}
+	b.WriteString("\tout[\"after\"] = after\n}\n")
+	return b.String(), true
+}
+
+func (p *replayPlan) afterFields(b *strings.Builder, expr, name string, c *cval, depth int) {
+	for _, k := range sortedKeys(c.fields) {
+		f := c.fields[k]
+		switch f.kind {
+		case "int", "bool", "string", "bytes":
+			fmt.Fprintf(b, "\tafter[%q] = gocvEnc(%s.%s)\n", name+"."+k, expr, k)
+		case "ptr":
+			if !f.isNil && depth < 2 {
+				p.afterFields(b, expr+"."+k, name+"."+k, f, depth+1)
+			}
+		}
+	}
+}
+
+// validate evaluates the violated clause over the concrete inputs and the
+// outputs observed from the real code, using the solver as the evaluator.
+func (p *replayPlan) validate(res map[string]any, vals map[string]string, ghostNames []string) string {
+	o := p.o
+	if o.clause == nil {
+		return "replay: clause not available for validation\n"
+	}
+	x := NewExec(p.x.prog)
+	x.topFn = p.fn
+	st0 := &State{pc: "true", heap: map[string]string{}, ghost: map[string]Val{}, alloc: "#x00100000"}
+	nextRef := uint64(0x100)
+	type pend struct {
+		ref string
+		bs  []byte
+	}
+	var pre, post []pend
+	newRef := func() string { nextRef++; return bvLit(nextRef, 32) }
+	fr := x.newFrame(p.fn, nil)
+	fr.top = true
+	after, _ := res["after"].(map[string]any)
+	bytesOf := func(m any) ([]byte, bool) {
+		mm, ok := m.(map[string]any)
+		if !ok {
+			return nil, false
+		}
+		arr, ok := mm["bytes"].([]any)
+		if !ok {
+			arr, ok = mm["str"].([]any)
+			if !ok {
+				return nil, false
+			}
+		}
+		bs := make([]byte, len(arr))
+		for i, e := range arr {
+			f, _ := e.(float64)
+			bs[i] = byte(f)
+		}
+		return bs, true
+	}
+	var mk func(c *cval, name string) (Val, bool)
+	structFieldWrites := []func(st *State, isPost bool){}
+	mk = func(c *cval, name string) (Val, bool) {
+		switch c.kind {
+		case "int":
+			return Val{T: c.typ, L: []string{bvLit(c.u, c.w)}}, true
+		case "bool":
+			return Val{T: c.typ, L: []string{fmt.Sprint(c.b)}}, true
+		case "string":
+			return Val{T: c.typ, L: []string{x.strLit(string(c.bs))}}, true
+		case "bytes":
+			if c.isNil {
+				return zeroVal(c.typ), true
+			}
+			r := newRef()
+			pre = append(pre, pend{r, c.bs})
+			if a, ok := after[name]; ok {
+				if bs, ok := bytesOf(a); ok {
+					post = append(post, pend{r, bs})
+				}
+			} else {
+				post = append(post, pend{r, c.bs})
+			}
+			n := bvLit(uint64(len(c.bs)), 64)
+			return Val{T: c.typ, L: []string{r, bvLit(0, 64), n, n}}, true
+		case "struct":
+			v := Val{T: c.typ}
+			stt := c.typ.Underlying().(*types.Struct)
+			for i := 0; i < stt.NumFields(); i++ {
+				f, ok := c.fields[stt.Field(i).Name()]
+				if !ok || f.kind == "unsupported" {
+					v.L = append(v.L, zeroVal(stt.Field(i).Type()).L...)
+					continue
+				}
+				fv, ok := mk(f, name+"."+stt.Field(i).Name())
+				if !ok {
+					return v, false
+				}
+				v.L = append(v.L, fv.L...)
+			}
+			return v, true
+		case "ptr":
+			if c.isNil {
+				return zeroVal(c.typ), true
+			}
+			r := newRef()
+			pv := Val{T: c.typ, L: []string{r}}
+			et := c.typ.Underlying().(*types.Pointer).Elem()
+			stt := et.Underlying().(*types.Struct)
+			for i := 0; i < stt.NumFields(); i++ {
+				fname := stt.Field(i).Name()
+				f, ok := c.fields[fname]
+				if !ok || f.kind == "unsupported" {
+					continue
+				}
+				fv, ok := mk(f, name+"."+fname)
+				if !ok {
+					continue
+				}
+				fp := Val{T: types.NewPointer(stt.Field(i).Type()), L: []string{r}, PtrPrefix: typePrefix(et) + "." + fname}
+				fvc, fcv, fnm := fv, f, name+"."+fname
+				structFieldWrites = append(structFieldWrites, func(st *State, isPost bool) {
+					v := fvc
+					if isPost {
+						if a, ok := after[fnm]; ok {
+							if am, ok := a.(map[string]any); ok {
+								if s, ok := am["int"].(string); ok && fcv.kind == "int" {
+									var u uint64
+									if strings.HasPrefix(s, "-") {
+										var sv int64
+										fmt.Sscan(s, &sv)
+										u = uint64(sv)
+									} else {
+										fmt.Sscan(s, &u)
+									}
+									v = Val{T: fcv.typ, L: []string{bvLit(u, fcv.w)}}
+								} else if bv, ok := am["bool"].(bool); ok && fcv.kind == "bool" {
+									v = Val{T: fcv.typ, L: []string{fmt.Sprint(bv)}}
+								}
+							}
+						}
+					}
+					x.storeVal(st, fp, v)
+				})
+			}
+			return pv, true
+		case "conn", "iface":
+			if c.isNil {
+				return zeroVal(c.typ), true
+			}
+			t := x.smt.Fresh("fake", SIface)
+			x.smt.Assert(not(eq(t, "inil")))
+			return Val{T: c.typ, L: []string{t}}, true
+		}
+		return zeroVal(c.typ), true
+	}
+	for i, c := range p.cvals {
+		v, ok := mk(c, p.names[i])
+		if !ok {
+			return "replay: could not rebuild parameter for validation\n"
+		}
+		fr.vals[p.fn.Params[i]] = v
+		fr.params[p.names[i]] = v
+	}
+	// ghost entry values from the model (scalars only)
+	for g, gv := range p.fr.entry.ghost {
+		nv := x.freshVal(st0, "g0."+g, gv.T)
+		if len(gv.L) == 1 {
+			if mv, ok := vals[gv.L[0]]; ok {
+				if _, isbv := bvValue(mv); isbv || mv == "true" || mv == "false" {
+					nv = Val{T: gv.T, L: []string{mv}}
+				}
+			}
+		}
+		st0.ghost[g] = nv
+	}
+	// #backend / interface ghosts equal to a parameter in the model keep that identity
+	for g, gv := range p.fr.entry.ghost {
+		if isInterface(gv.T) && len(gv.L) == 1 {
+			for i, pv := range p.params {
+				if isInterface(pv.T) && vals[pv.L[0]] != "" && vals[pv.L[0]] == vals[gv.L[0]] {
+					st0.ghost[g] = fr.params[p.names[i]]
+				}
+			}
+		}
+	}
+	x.regHeap("arr.bv8", SBV8, SBV64)
+	setBytes := func(st *State, ps []pend, name string) {
+		arr := x.smt.Declare(name, x.arraySort("arr.bv8"))
+		for _, pd := range ps {
+			for i, b := range pd.bs {
+				x.smt.Assert(eq(sel(sel(arr, pd.ref), bvLit(uint64(i), 64)), bvLit(uint64(b), 8)))
+			}
+		}
+		st.heap["arr.bv8"] = arr
+	}
+	setBytes(st0, pre, "Hpre.arr.bv8")
+	for _, w := range structFieldWrites {
+		w(st0, false)
+	}
+	fr.entry = st0.clone()
+	st1 := st0.clone()
+	// results
+	env := map[string]Val{}
+	results, _ := res["results"].([]any)
+	names := resultNames(nil, p.fn.Signature)
+	for i, rn := range names {
+		if i >= len(results) {
+			break
+		}
+		rt := p.fn.Signature.Results().At(i).Type()
+		rm, _ := results[i].(map[string]any)
+		var rv Val
+		switch {
+		case isSlice(rt):
+			if bs, ok := bytesOf(rm); ok {
+				if rm["nilslice"] == true {
+					rv = zeroVal(rt)
+				} else {
+					r := newRef()
+					post = append(post, pend{r, bs})
+					n := bvLit(uint64(len(bs)), 64)
+					rv = Val{T: rt, L: []string{r, bvLit(0, 64), n, n}}
+				}
+			} else {
+				return "replay: result shape not supported for validation\n"
+			}
+		case isString(rt):
+			bs, _ := bytesOf(rm)
+			rv = Val{T: rt, L: []string{x.strLit(string(bs))}}
+		case isBool(rt):
+			bv, _ := rm["bool"].(bool)
+			rv = Val{T: rt, L: []string{fmt.Sprint(bv)}}
+		case isInteger(rt):
+			s, _ := rm["int"].(string)
+			var u uint64
+			if strings.HasPrefix(s, "-") {
+				var sv int64
+				fmt.Sscan(s, &sv)
+				u = uint64(sv)
+			} else {
+				fmt.Sscan(s, &u)
+			}
+			rv = Val{T: rt, L: []string{bvLit(u, bvWidth(scalarSort(rt)))}}
+		case isInterface(rt):
+			if rm["nil"] == true {
+				rv = zeroVal(rt)
+			} else {
+				t := x.smt.Fresh("res", SIface)
+				x.smt.Assert(not(eq(t, "inil")))
+				rv = Val{T: rt, L: []string{t}}
+			}
+		default:
+			rv = x.freshVal(st1, "res", rt)
+		}
+		env[rn] = rv
+		if len(names) == 1 {
+			env["result"] = rv
+		}
+	}
+	// ghost effects observable through the recording connection
+	for i, c := range p.cvals {
+		if c.kind != "conn" || c.isNil {
+			continue
+		}
+		am, _ := after[p.names[i]].(map[string]any)
+		ws, _ := am["writes"].([]any)
+		connV := fr.params[p.names[i]]
+		if len(ws) > 0 {
+			if bs, ok := bytesOf(ws[len(ws)-1]); ok {
+				r := newRef()
+				post = append(post, pend{r, bs})
+				n := bvLit(uint64(len(bs)), 64)
+				if g, ok := st1.ghost["connWrite"]; ok {
+					st1.ghost["connWrite"] = Val{T: g.T, L: []string{r, bvLit(0, 64), n, n}}
+				}
+				if g, ok := st1.ghost["connWriteTo"]; ok {
+					st1.ghost["connWriteTo"] = Val{T: g.T, L: connV.L}
+				}
+			}
+		}
+		if g, ok := st1.ghost["relayed"]; ok {
+			isBackend := eq(connV.L[0], st0.ghost["backend"].L[0])
+			st1.ghost["relayed"] = Val{T: g.T, L: []string{ite(isBackend, app("bvadd", st0.ghost["relayed"].L[0], bvLit(uint64(len(ws)), 64)), st0.ghost["relayed"].L[0])}}
+		}
+	}
+	setBytes(st1, post, "Hpost.arr.bv8")
+	for _, w := range structFieldWrites {
+		w(st1, true)
+	}
+	g := x.evalSpecBool(fr, st1, fr.entry, o.clause.Expr, env)
+	if len(x.unsupp) > 0 {
+		return fmt.Sprintf("replay: clause could not be evaluated on concrete values: %v\n", x.unsupp)
+	}
+	q := x.smt.Query(len(x.smt.asserts), g)
+	r := Solve(q, 20, false, "validate")
+	switch r.Status {
+	case "unsat":
+		return "confirmed-on-real-code: with the model's inputs the real function produced outputs for which the clause is false\n"
+	case "sat":
+		return "not-confirmed: on the model's inputs the real function satisfied the clause (the model exploits an imprecision of the contracts or of the engine)\n"
+	}
+	return "not-confirmed: validation query was " + r.Status + "\n"
+}
